@@ -25,6 +25,8 @@ LEVEL = 'model_checking'
 G1 = "start::Pair: l:'a' r:'b' | c:'c' ;\n"
 G2 = "start::Pair::Base: x:'a' ;\n"
 G3 = "@@ignorecase :: False\n\nstart: {word}+ $ ;\n\nword::Word: /[a-c]+/ ;\n"
+G4 = "start: host:'h' port:'p' c:`{host}:{port}` ;\n"
+G5 = "start: x:'z' reply:`pong {port}` len:`len(x)` ;\n"
 
 
 class Tag:
@@ -57,10 +59,12 @@ CALLS = [
     # that object before, the result must be that of compile(G1, semantics=S).parse(t) — call 2
     ('model2-parse', 'G1', 'a b', ()),
     ('model2-attach-parse-detach', 'G1', 'a b', ()),
+    ('compile-parse', 'G4', (), 'h p', ()),      # constants: names bound by one parse ...
+    ('compile-parse', 'G5', (), 'z', ()),        # ... must be invisible to another grammar's constants
 ]
 SAME_AS = {20: 2}   # call index -> call index whose first observation it must equal
-REDUCED = [0, 1, 2, 5, 7, 12, 13, 16, 17, 19, 20]
-GRAMMARS = {'G1': G1, 'G2': G2, 'G3': G3}
+REDUCED = [0, 1, 2, 5, 7, 12, 13, 16, 17, 19, 20, 21, 22]
+GRAMMARS = {'G1': G1, 'G2': G2, 'G3': G3, 'G4': G4, 'G5': G5}
 
 
 def observe_value(v):
